@@ -266,7 +266,7 @@ static void checkC09(Ctx& c, long idx, Rng& r) {
             if (adv) w2.set("status", (int)res.getExitStatus()).set("anyChange", res.getAnyChangeMade()).set("its", res.getNumIterations()).set("normOnEntrance", res.getNormOnEntrance()).set("normOnExit", res.getNormOnExit());
             auto W2 = [&](const char* what) { Json w = w2; return [w, what]() { Json x = w; x.set("what", what); return x; }; };
             bool fin = allFinite(qOut) && allFinite(uOut);
-            c.require("finite:" + A_, fin, W2("NaN/Inf in q or u after a return that reports success"));
+            c.require("finite:nonfinite-state-after-success:" + A_, fin, W2("NaN/Inf in q or u after a return that reports success"));
             Norms nOut; bool realizable = true;
             try { nOut = recomputeNorms(B, s, inf, true); } catch (const std::exception& e) { realizable = false; }
             c.require("rerealize:" + A_, realizable || !fin, W2("state returned by a successful projection cannot be re-realized"));
